@@ -80,6 +80,8 @@ structure PAcc where
   diverged : Nat := 0
   knownDiverged : Nat := 0
   jobsOrdered : Nat := 0
+  needDeps : Bool := false      -- a `G` line of an accepted flow announced a parsable file; its `GD` line is due
+  depsChecked : Nat := 0
 
 def reportDivs (a : PAcc) (sid : String) (ds : List (String × String)) : IO PAcc := do
   match a.prog with
@@ -92,15 +94,22 @@ def reportDivs (a : PAcc) (sid : String) (ds : List (String × String)) : IO PAc
     else if a.known then return { a with knownDiverged := a.knownDiverged + 1 }
     else return { a with diverged := a.diverged + 1 }
 
+/-- A program whose `G` line promised a parsable generated Flow must have brought a `GD` line. -/
+def flushDeps (a : PAcc) : IO PAcc := do
+  if !a.needDeps then return a
+  let pid := (a.prog.map (·.pid)).getD 0
+  reportDivs { a with needDeps := false } "-" [("deps", s!"pid {pid}: no GD line for an accepted flow whose generated file parses")]
+
 partial def progLoop (h : IO.FS.Stream) (a : PAcc) : IO PAcc := do
   let l ← h.getLine
-  if l.isEmpty then return a
+  if l.isEmpty then flushDeps a
   else
     let t := toks (l.trimRight)
     match t with
     | "progrun" :: rest =>
       progLoop h { a with defaultConc := (Gen.kvN rest "defaultconc").getD 4 }
     | ["prog", pid, kind] =>
+      let a ← flushDeps a
       progLoop h { a with prog := some { pid := (pid.toNat?).getD 0, kind := if kind == "par" then .par else .flow },
                           known := false, accepted := false, sc := none, programs := a.programs + 1 }
     | "P" :: _ =>
@@ -123,8 +132,20 @@ partial def progLoop (h : IO.FS.Stream) (a : PAcc) : IO PAcc := do
     | "G" :: _ =>
       match a.prog with
       | some p =>
-        let a ← reportDivs { a with checked := a.checked + 1 } "-" (Gen.Check.checkStatic p t)
+        -- the structural check of the job graph applies when cff and the model both accept the flow
+        let due := a.accepted && p.kind == .flow && (Gen.validate p).isEmpty && Gen.kvB (t.drop 2) "parses"
+        let a ← reportDivs { a with checked := a.checked + 1, needDeps := due } "-" (Gen.Check.checkStatic p t)
         progLoop h a
+      | none => progLoop h a
+    | "GD" :: _ :: rest =>
+      match a.prog with
+      | some p =>
+        if a.needDeps then
+          -- C11: the generated Dependencies lists are those of `genJobs p` (Gen.C11_pred_deps)
+          let a ← reportDivs { a with checked := a.checked + 1, depsChecked := a.depsChecked + 1, needDeps := false } "-"
+            (Gen.Check.checkDeps p rest)
+          progLoop h a
+        else progLoop h a
       | none => progLoop h a
     | "S" :: _ =>
       progLoop h { a with sc := some (Gen.parseScenario t), obs := {}, scenarios := a.scenarios + 1 }
@@ -155,7 +176,7 @@ def main (args : List String) : IO UInt32 := do
     return 0
   | ["prog"] =>
     let a ← progLoop stdin {}
-    IO.println s!"driver-summary programs={a.programs} scenarios={a.scenarios} checked={a.checked} diverged={a.diverged} known_diverged={a.knownDiverged} jobs_ordered={a.jobsOrdered}"
+    IO.println s!"driver-summary programs={a.programs} scenarios={a.scenarios} checked={a.checked} diverged={a.diverged} known_diverged={a.knownDiverged} jobs_ordered={a.jobsOrdered} deps_checked={a.depsChecked}"
     return 0
   | _ =>
     IO.eprintln "usage: driver sched|text|prog"
